@@ -661,15 +661,15 @@ def run(ctx: Ctx) -> None:
         db_plans = [(3, 4, False), (4, 4, True), (3, 5, "edges"), (4, 4, "edges")]
     ctx.bounds = {"dictionaries": {"labels": [s[0] for s in shards_d[:1]] + ([4] if not ctx.quick else []), "rules_per_label": 2, "arity": 2},
                   "db_sequences": [{"labels": n, "depth": d, "reduced_alphabet": r} for n, d, r in db_plans]}
-    ctx.pmap(_worker_dicts, shards_d, chunksize=1)
     shards_s = []
     for n, d, reduced in db_plans:
         alpha = alphabet_for(n, reduced)
         shards_s += [(n, d, i, reduced) for i in range(len(alpha))]
-    ctx.pmap(_worker_dbseq, shards_s, chunksize=1)
     cfgs = search_configs(ctx.tier)
     ctx.bounds["search_configurations"] = len(cfgs)
-    ctx.pmap(_worker_search, [(c.to_json(), ctx.tier) for c in cfgs], chunksize=2)
+    tasks = [(_worker_dicts, s) for s in shards_d] + [(_worker_dbseq, s) for s in shards_s]
+    tasks += [(_worker_search, (c.to_json(), ctx.tier)) for c in cfgs]
+    ctx.pmap_tasks(tasks)
 
 
 def replay(acc: Acc, payload: dict) -> None:
